@@ -42,9 +42,11 @@ def fails(d, key, respect_classes=True):
     return not (respect_classes and in_known_class(d, key))
 
 
-def shrink(w, tab, reorder, src, key, max_rounds=40):
-    """ddmin over lines, then over characters. Returns the smallest failing source found."""
+def shrink(w, tab, reorder, src, key, max_rounds=40, budget_s=240):
+    """ddmin over lines, then over characters. Returns the smallest failing source found (within a time budget)."""
+    import time
     cur = src
+    t_end = time.time() + budget_s
 
     def test_many(cands):
         ds = oracle_many([(w, tab, reorder, c) for c in cands])
@@ -53,7 +55,7 @@ def shrink(w, tab, reorder, src, key, max_rounds=40):
     for unit in ("line", "char"):
         n = 2
         rounds = 0
-        while rounds < max_rounds:
+        while rounds < max_rounds and time.time() < t_end:
             rounds += 1
             parts = cur.split("\n") if unit == "line" else list(cur)
             if unit == "line":
